@@ -121,6 +121,7 @@ func sizeAdversarialProfile(r *Rng, cfg Config) *Profile {
 		"settype": 2, "popall": 1, "reget": 1, "commit": 3, "dropcache": 1, "reopen": 1, "new": 2,
 		"a.fill": 2, "m.fill": 2, "a.drain": 2, "m.drain": 2,
 		"bulk.arr": 2, "bulk.map": 1, "bytes.toarr": 1, "copy": 1,
+		"a.oob": 2, "probe.removed": 2,
 	}
 	return &Profile{
 		Name: "size-adversarial", W: w, MaxRoots: r.Range(1, 4), Owners: []uint64{1, 2, 0, 0x0102030405060708}[:r.Range(1, 4)],
